@@ -44,6 +44,8 @@ def check(run, driver):
         dx, dy = int(rng.integers(1, 4)), int(rng.integers(1, 4))
         dz = int(rng.integers(1, 4)) if it % 2 else 0
         k = int(rng.integers(1, min(10, N - 1) + 1))
+        if it % 9 == 4:       # the largest admissible neighbour count, k = N - 1 (small samples), on both paths and all metrics
+            N = int(rng.integers(4, 11)); k = N - 1
         metric = METRICS[it % 3]
         mix = rng.standard_normal((dx + dy + dz, dx + dy + dz)) * (it % 4 != 0) + np.eye(dx + dy + dz)
         W = rng.standard_normal((N, dx + dy + dz)) @ mix * float(10 ** rng.uniform(-2, 2))
